@@ -1,5 +1,6 @@
 import IkeProofs.RefineEap.Crypto
 import IkeProofs.Theorems.C07
+import IkeProofs.RefineSa.Transfer
 
 /-! # C07 (prf+) over the code as translated from the current source (`security/lib.PrfPlus`) -/
 
@@ -27,5 +28,58 @@ theorem C07_gen_prfplus (P : Prims) (hP : P.Lawful) (prf : Go.Mac) (s : Bytes) (
     | ok v => rw [hg] at h; simp only [Res.map] at h ⊢; injection h with h; rw [Prod.mk.injEq] at h; rw [h.2]; rfl
     | err => rw [hg] at h; simp [Res.map] at h
     | fault => rw [hg] at h; simp [Res.map] at h
+
+/-! ### `security.(*IKESAKey).GenerateKeyForIKESA` as translated from `security/security.go` -/
+
+open Ike.RefineSa Ike.GenAbsSa in
+/-- the translated `GenerateKeyForIKESA` IS the model's `genKeyForIKESA`, for every object whose descriptors are
+registered ones, every nonce, shared secret and SPI pair -/
+theorem C07_gen_keygen_is_model (P : Prims) (hP : P.Lawful) (k : Gen.security.IKESAKey) (hk : SaRegistered k)
+    (nonce secret : Bytes) (si sr : UInt64) :
+    (Gen.security.IKESAKey.GenerateKeyForIKESA P (some k) nonce secret si sr).map absSa =
+      (match genKeyForIKESA P (absSa k) nonce secret si sr with
+       | (sa', .ok ()) => .ok sa' | (_, .err) => .err | (_, .fault) => .fault) :=
+  GenerateKeyForIKESA_refines P hP k hk nonce secret si sr
+
+open Ike.RefineSa Ike.GenAbsSa in
+/-- C07 (b), (c) over the translated code: SKEYSEED = prf(Ni|Nr, g^ir), the seven keys are the consecutive slices
+of prf+(SKEYSEED, Ni|Nr|SPIi|SPIr) with the registered lengths.  The call succeeds and the object it returns is —
+through the abstraction — the freshly keyed object `SAKey.fresh` over the key set `ikeKeysG` (which is
+`Spec.ikeKeys`, RFC 7296 §2.14, when the PRF's key length is its output length, `ikeKeysG_eq_spec`): the seven
+keys, the three PRF objects, the two integrity objects and the two cipher objects keyed with them, all buffers
+empty, nothing of the object's previous contents left; and it is well-formed for `ike.go` (`SaWF`). -/
+theorem C07_gen_keys (P : Prims) (hP : P.Lawful) (k : Gen.security.IKESAKey) (hk : SaRegistered k)
+    (nonce secret : Bytes) (si sr : UInt64)
+    (hL : 0 < P.macLen (absSa k).prfInfo.hash) (hn : nonce.length ≠ 0) (hs : secret.length ≠ 0)
+    (ht : 0 < (absSa k).keyTotal) :
+    ∃ k', Gen.security.IKESAKey.GenerateKeyForIKESA P (some k) nonce secret si sr = .ok k' ∧ SaWF k' ∧
+      SaRegistered k' ∧
+      let ks := ikeKeysG (P.mac (absSa k).prfInfo.hash) (P.macLen (absSa k).prfInfo.hash) (absSa k).prfInfo.keyLen
+        (absSa k).integInfo.keyLen (absSa k).encrInfo.keyLen nonce secret si sr
+      absSa k' = SAKey.fresh (absSa k).encrInfo (absSa k).integInfo (absSa k).prfInfo
+        ks.d ks.ai ks.ar ks.ei ks.er ks.pi ks.pr := by
+  have hr := GenerateKeyForIKESA_refines P hP k hk nonce secret si sr
+  obtain ⟨h0, h1, h2, h3, h4, h5, h6, h7⟩ := C07_keys P hP (absSa k) nonce secret si sr hL hn hs ht
+  obtain ⟨o0, _⟩ := C07_objects P hP (absSa k) nonce secret si sr hL hn hs ht
+  rw [h1, h2, h3, h4, h5, h6, h7] at o0
+  cases hg : genKeyForIKESA P (absSa k) nonce secret si sr with
+  | mk sa' res =>
+    rw [hg] at hr h0 o0
+    simp only at h0 o0
+    subst h0
+    obtain ⟨k', hk', ha⟩ := map_eq_ok hr
+    exact ⟨k', hk', (GenerateKeyForIKESA_wf P k hk nonce secret si sr k' hk').1,
+      GenerateKeyForIKESA_registered P k hk nonce secret si sr k' hk', by rw [ha]; exact o0⟩
+
+open Ike.RefineSa Ike.GenAbsSa in
+/-- refusals of the translated `GenerateKeyForIKESA`: a nil object, a missing descriptor, an empty nonce string or
+an empty shared secret — an error, never a fault, nothing derived -/
+theorem C07_gen_refusals (P : Prims) (k : Gen.security.IKESAKey) (nonce secret : Bytes) (si sr : UInt64) :
+    Gen.security.IKESAKey.GenerateKeyForIKESA P none nonce secret si sr = .err ∧
+    ((k.EncrInfo = .nil_ ∨ k.IntegInfo = .nil_ ∨ k.PrfInfo = .nil_ ∨ k.DhInfo = .nil_) →
+      Gen.security.IKESAKey.GenerateKeyForIKESA P (some k) nonce secret si sr = .err) ∧
+    ((nonce = [] ∨ secret = []) → Gen.security.IKESAKey.GenerateKeyForIKESA P (some k) nonce secret si sr = .err) :=
+  ⟨GenerateKeyForIKESA_nil P nonce secret si sr, fun h => GenerateKeyForIKESA_missing P k h nonce secret si sr,
+   fun h => GenerateKeyForIKESA_empty P (some k) nonce secret h si sr⟩
 
 end Ike
